@@ -9,20 +9,22 @@ import pathspec
 
 def _read_ignore_file(path: Path) -> pathspec.PathSpec | None:
     """
-    Read an ignore file (gitignore syntax), stripping comments and blanks.
-    Returns a compiled PathSpec, or None if the file has no active rules or
-    cannot be read.
+    Read an ignore file (gitignore syntax). Comments and blank lines are handled by
+    the gitignore parser. Returns a compiled spec, or None if the file has no active
+    rules or cannot be read.
+
+    The spec follows git's rules (last matching pattern wins, negation with `!`,
+    patterns containing a slash are anchored at the directory of the ignore file), so
+    paths must be matched relative to that directory, not by basename.
     """
     try:
         text = path.read_text()
     except (OSError, UnicodeDecodeError):
         return None
-    lines = [
-        line for line in text.splitlines() if line.strip() and not line.strip().startswith("#")
-    ]
-    if not lines:
+    lines = text.splitlines()
+    if not any(line.strip() and not line.startswith("#") for line in lines):
         return None
-    return pathspec.PathSpec.from_lines("gitignore", lines)
+    return pathspec.GitIgnoreSpec.from_lines(lines)
 
 
 def load_gitignore(directory: Path) -> pathspec.PathSpec | None:
